@@ -140,6 +140,13 @@ class Models(object):
     # ------------------------------------------------------------ operators
     def binop(self, it, op, a, b):
         if isinstance(a, Opaque) or isinstance(b, Opaque):
+            if op == 'Add' and (is_bytes(a) or is_bytes(b)) and it.light:
+                # bytes + X is bytes whenever it does not raise TypeError: keep the known part, the rest is arbitrary octets
+                it.opaque('bytes + opaque')
+                if it.branch(z3.Bool(fresh_name('opq_raises'))):
+                    raise_builtin('TypeError', "can't concat")
+                rest = SBytes.fresh('opqcat')
+                return SBytes.of(a).concat(rest) if is_bytes(a) else rest.concat(SBytes.of(b))
             return it.opaque('binop %s on opaque' % op)
         # bytes
         if is_bytes(a) or is_bytes(b):
